@@ -122,4 +122,7 @@ def run(check, ctx):
     # native copies are independent: a keccak copy and its original continue separately (permutation uninterpreted)
     from . import c_keccak
     c_keccak.keccak_tables(check, ctx, rule="P6-c", groups=("copy",))
+    # reading a native point (coordinates, comparison, clone) does not change it
+    from . import c_ed
+    c_ed.ed_tables(check, ctx, rule="P6-c", groups=("points",))
     check.undecided.append("concurrent use of the same object; atomicity assumptions of CPython containers; GMP's own thread safety")
